@@ -5114,7 +5114,9 @@ func readOfficialHeader(buf []byte) (size uint32, containerTyper func(index uint
 	}
 	cf := func(index uint, card int) (newType byte) {
 		newType = containerBitmap
-		if card < ArrayMaxSize {
+		// In the official format a container of up to (and including)
+		// 4096 values is an array.
+		if card <= ArrayMaxSize {
 			newType = containerArray
 		}
 		return newType
@@ -5129,7 +5131,7 @@ func readOfficialHeader(buf []byte) (size uint32, containerTyper func(index uint
 		pos += 4
 	} else if cookie&0x0000FFFF == serialCookie {
 		haveRuns = true
-		size = uint32(uint16(cookie>>16) + 1) // number of containers
+		size = uint32(uint16(cookie>>16)) + 1 // number of containers (1..65536; do not add in uint16)
 
 		// create is-run-container bitmap
 		isRunBitmapSize := (int(size) + 7) / 8
@@ -5163,6 +5165,16 @@ func readOfficialHeader(buf []byte) (size uint32, containerTyper func(index uint
 		return size, containerTyper, header, pos, haveRuns, err
 	}
 	pos += 2 * 2 * int(size) // moving pos past keycount
+	// With the run cookie the offset header is present only when there are
+	// at least 4 containers (NO_OFFSET_THRESHOLD); containers are read
+	// sequentially in that format, so just skip it.
+	if haveRuns && size >= 4 {
+		if pos+4*int(size) > len(buf) {
+			err = fmt.Errorf("malformed bitmap, offset header overruns buffer at %d", pos+4*int(size))
+			return size, containerTyper, header, pos, haveRuns, err
+		}
+		pos += 4 * int(size)
+	}
 	return size, containerTyper, header, pos, haveRuns, err
 }
 
@@ -5254,13 +5266,19 @@ func readWithRuns(b *Bitmap, data []byte, pos int, keyN uint32) error {
 		switch c.typ() {
 		case containerRun:
 			runCount := binary.LittleEndian.Uint16(data[pos : pos+runCountHeaderSize])
-			c.setRuns((*[0xFFFFFFF]interval16)(unsafe.Pointer(&data[pos+runCountHeaderSize]))[:runCount:runCount])
-			runs := c.runs()
-
-			for o := range runs { // must convert from start:length to start:end :(
+			if len(data) < pos+runCountHeaderSize+int(runCount)*interval16Size {
+				return fmt.Errorf("run container overruns buffer: len=%d", len(data))
+			}
+			// must convert from start:length to start:end, and must not do
+			// that in the caller's (possibly read-only mmapped) buffer.
+			runs := make([]interval16, runCount)
+			copy(runs, (*[0xFFFFFFF]interval16)(unsafe.Pointer(&data[pos+runCountHeaderSize]))[:runCount:runCount])
+			for o := range runs {
 				runs[o].last = runs[o].start + runs[o].last
 			}
-			pos += int((runCount * interval16Size) + runCountHeaderSize)
+			c.setMapped(false)
+			c.setRuns(runs)
+			pos += int(runCount)*interval16Size + runCountHeaderSize
 		case containerArray:
 			c.setArray((*[0xFFFFFFF]uint16)(unsafe.Pointer(&data[pos]))[:c.N():c.N()])
 			pos += int(c.N() * 2)
